@@ -211,12 +211,12 @@ open Pcore.LoaderSeq
 
 /-- a lazily file-loaded definition is instantiated at most once, whatever the interleaving, the number of goroutines
     and the names they look up -/
-theorem C13_once (files : List (Key × V)) (progs : List (List Key)) (c : Config)
+theorem C13_once (files : List (Key × V)) (progs : List (List FOp)) (c : Config)
     (hr : Reachable (Config.init files progs) c) (k : Key) : c.reads.count k ≤ 1 :=
   (Inv_reachable (Inv_init files progs) hr).i7 k
 
 /-- … and exactly once for a name that is bound; what is bound is what the file holds -/
-theorem C13_once_bound (files : List (Key × V)) (progs : List (List Key)) (c : Config)
+theorem C13_once_bound (files : List (Key × V)) (progs : List (List FOp)) (c : Config)
     (hr : Reachable (Config.init files progs) c) (k : Key) (v : V) (hb : lk k c.es = some (some v)) :
     c.reads.count k = 1 ∧ fileOf k c.files = some v := by
   have h1 := C13_once files progs c hr k
@@ -227,12 +227,12 @@ theorem C13_once_bound (files : List (Key × V)) (progs : List (List Key)) (c : 
 def fileA : List (Key × V) := [("a", .al "A" 1)]
 /-- thread 1 looks `a` up and runs until it is parked between the placeholder and the instantiator; thread 0 then looks
     `a` up: it meets the placeholder -/
-def visibleConfig : Config := iter (Config.init fileA [["a"], ["a"]]) [1, 1, 1, 1, 1, 1, 1, 0]
+def visibleConfig : Config := iter (Config.init fileA [[.load "a"], [.load "a"]]) [1, 1, 1, 1, 1, 1, 1, 0]
 
 /-- the known finding in the model: a name that HAS a file is answered not-found while its instantiation is in progress
     (the schedule `1 1` of the finding's witness op) -/
 theorem C13_placeholder_visible :
-    Reachable (Config.init fileA [["a"], ["a"]]) visibleConfig ∧ fileOf "a" visibleConfig.files = some (.al "A" 1) ∧
+    Reachable (Config.init fileA [[.load "a"], [.load "a"]]) visibleConfig ∧ fileOf "a" visibleConfig.files = some (.al "A" 1) ∧
     (visibleConfig.th.map (·.log)) = [[.notfound], []] ∧ (visibleConfig.th.map (·.pc)) = [.idle, .instRun "a" 0] :=
   ⟨reachable_iter _ _ _ Reachable.init, by decide, by decide, by decide⟩
 
